@@ -2,6 +2,7 @@
 # usage: tools/seedconfirm.sh <seed dir with patch.diff demo.rs>   -- confirms in the scratch worktree /tmp/seedcheck that
 #  (1) the patch applies, (2) the 41 existing tests pass with it, (3) demo fails with it, (4) demo passes without it.
 d=$1; w=/tmp/seedcheck
+[ -d $w ] || git -C /repo worktree add --detach $w HEAD >/dev/null 2>&1   # scratch worktree (remove with: git -C /repo worktree remove --force /tmp/seedcheck)
 cd $w && git checkout -q --detach $(git -C /repo rev-parse HEAD) && git checkout -- . && git clean -fdq tests
 git apply $d/patch.diff || { echo "CONFIRM $d: patch does not apply"; exit 1; }
 t=$(cargo test --offline 2>&1 | grep "test result" | awk '{p+=$4; f+=$6} END {print p" passed "f" failed"}')
